@@ -65,6 +65,7 @@ fn main() {
         "C11" => c11::cases(&mut rng, count, tier),
         "C11d" => c11::cases_deep(&mut rng, count, tier),
         "C12" => c12::cases(&mut rng, count, tier),
+        "C12t" => c12::cases_t(&mut rng, count, tier),
         "C13" => c13::cases(&mut rng, count, tier),
         "C14" => c14::cases(&mut rng, count, tier),
         "C17" => c17::cases(&mut rng, count, tier),
